@@ -218,7 +218,8 @@ Used == Len(nodes) + (IF docs = <<>> THEN 0 ELSE docs[Len(docs)].used)
 
 AfterKeep == nodes # <<>> /\ nodes[Len(nodes)].st \in {"lit", "fold"} /\ nodes[Len(nodes)].ch = "+"
 
-\* K1: a root block scalar whose header line carries a comment or an anchor
+\* K1: a root block scalar whose header line carries a comment, or whose content has `: `
+HasColonSpace(s) == \E i \in 1..(Len(s) - 1) : s[i] = ":" /\ s[i + 1] = " "
 \* K2: in a root-level block mapping, an entry with an empty value followed by a quoted key
 AfterEmptyTop == /\ stack = <<1>> /\ nodes[1].st = "block" /\ nodes # <<>>
                  /\ LET l == nodes[Len(nodes)]
@@ -274,7 +275,7 @@ AddScalar ==
           \* block scalar (or alias) that starts a line's content - document root or sequence item -
           \* followed by a comment that contains `: ` is not generated
           /\ (role \in {"root", "item"} /\ st \in {"plain", "lit", "fold"} => cm # 2)
-          /\ ("K1" \in Avoid /\ role = "root" /\ st \in {"lit", "fold"} => cm = 0 /\ an = 0)
+          /\ ("K1" \in Avoid /\ role = "root" /\ st \in {"lit", "fold"} => cm = 0 /\ ~HasColonSpace(PAL[t].s))
           /\ ("K2" \in Avoid /\ role = "key" /\ st \in {"single", "double"} => ~AfterEmptyTop)
           /\ dec' = dec + Cost(an, cm, pre, vr)
           /\ \E ch \in Pick(IF st \in {"lit", "fold"} THEN ChompT[t] ELSE {""}) :
